@@ -2,6 +2,7 @@ CONSTANTS Labels = {1, 2}
   MaxIds = 3
   MaxBuffer = 2
   Sem = "ST"
+  StaleCertificate = FALSE
   ReissueRule = "code"
 SPECIFICATION Spec
 CHECK_DEADLOCK FALSE
